@@ -232,6 +232,9 @@ func (a *scramAuth) handleServerFirstResponse(fromServer []byte) ([]byte, error)
 
 // handleServerValidationMessage verifies the server's signature during the SCRAM authentication process.
 func (a *scramAuth) handleServerValidationMessage(fromServer []byte) ([]byte, error) {
+	if len(a.saltedPwd) == 0 || len(a.authMessage) == 0 {
+		return nil, errors.New("server signature received before the server's first message")
+	}
 	serverSignature := fromServer[2:]
 	computedServerSignature := a.computeServerSignature()
 
